@@ -188,6 +188,16 @@ CLAIMS = {
         "(normal, perihelion direction) from i, node, argument of perihelion.",
    technique="TLA+ vector identities over verified witnesses; trace validation",
    ref="5/C09"),
+ "C20": dict(
+   text="ApiHeap.tla models the library as caller-owned objects + module-level state + a memo of call outcomes; the frame "
+        "conditions, determinism across arbitrary call histories, totality on the documented domain and clean rejection are "
+        "invariants/action properties that TLC evaluates at every step of traces recorded from ~300 introspected callables "
+        "(well-typed, ill-typed, repeated in shuffled order); ObjHeap.tla is model-checked over all operation sequences of depth "
+        "2 and its TLC-generated behaviours (plus -simulate ones) are replayed on real Angle/Epoch objects.",
+   note="Trusted: TLC; the harness's structural digest (sha1 of a canonical deep rendering, 30 bits) as the observation of object "
+        "and module state; the curated argument-domain table.",
+   technique="TLA+ heap/memo model; TLC-generated behaviours replayed; trace validation of the whole API catalogue",
+   ref="5/C20"),
 }
 
 PENDING_REASON = "check not built yet in this round (specification module planned in DESIGN.md section 5); not claimed until its trace specification validates the unchanged tree"
